@@ -3,6 +3,7 @@ package props
 import (
 	"errors"
 	"fmt"
+	"os"
 	"sync"
 	"time"
 
@@ -27,6 +28,14 @@ type C14Case struct {
 	FaultAtMs int      `json:"fault_at_ms"` // relative to the start of the in-flight request
 	RestartMs int      `json:"restart_ms"`  // restart: delay before the node comes back
 	Segment   bool     `json:"segment"`
+	// TermGapMs (fault termcrash): the target terminates, B crashes this many ms later (the terminate
+	// message and the loss of the connection reach A at about the same time); -1: B crashes at the
+	// very moment the first bytes sent after the termination are delivered to A (the handling of the
+	// terminate message and the handling of the lost connection are then interleaved by the scheduler)
+	TermGapMs int `json:"term_gap_ms,omitempty"`
+	// Phase2 (faults restart, partition): once the connection is back a second observer on A relates to
+	// the same name and event, then the target terminates
+	Phase2 bool `json:"phase2,omitempty"`
 }
 
 type c14 struct{}
@@ -53,7 +62,12 @@ func (c14) Components() ([]string, []string) {
 
 func (c14) Generate(r *simkit.Rand, tier string) any {
 	c := &C14Case{Pool: r.Range(1, 3), PreTerm: r.Chance(0.25), InFlight: simkit.Pick(r, "", "call", "call", "important"),
-		Fault: simkit.Pick(r, "cutall", "cutone", "stop", "crash", "restart", "restart", "partition"), Segment: r.Bool()}
+		Fault: simkit.Pick(r, "cutall", "cutone", "stop", "crash", "restart", "restart", "partition", "partition", "termcrash", "termcrash"), Segment: r.Bool()}
+	c.TermGapMs = simkit.Pick(r, -1, -1, -1, 0, 1, 2, 3, 4, 5, 7)
+	c.Phase2 = r.Chance(0.6)
+	if c.Fault == "termcrash" {
+		c.PreTerm = false
+	}
 	c.FaultAtMs = simkit.Pick(r, 0, 1, 2, 5, 50, 500, 2000, 4999, 5000, 5001, 6000)
 	c.RestartMs = simkit.Pick(r, 200, 900, 1100, 3000, 5000)
 	kinds := []C14Rel{}
@@ -350,6 +364,27 @@ func (c14) Run(e *simkit.Env, cc any) {
 		// the dying node opened while its processes were being killed
 		e.Settle(time.Millisecond)
 		sn.CutAll()
+	case "termcrash":
+		e.Fault("node-crash")
+		if c.TermGapMs < 0 {
+			trig := make(chan struct{})
+			var once sync.Once
+			sn.SetOnDeliver(func(l *simkit.Link, dir int, n int) { once.Do(func() { close(trig) }) })
+			b.Send(tPID, "exit")
+			e.WaitChan(trig, 5*time.Second)
+			sn.SetOnDeliver(nil)
+			e.Probe("crash-while-terminate-message-is-handled")
+		} else {
+			b.Send(tPID, "exit")
+			if c.TermGapMs > 0 {
+				e.Sleep(time.Duration(c.TermGapMs) * time.Millisecond)
+			}
+		}
+		sn.Refuse("h2", true)
+		sn.CutAll()
+		simkit.StopNode(e, b, false, 0)
+		e.Settle(time.Millisecond)
+		sn.CutAll()
 	case "partition":
 		sn.Refuse("h2", true)
 		sn.Refuse("h1", true)
@@ -365,6 +400,10 @@ func (c14) Run(e *simkit.Env, cc any) {
 	}
 
 	// ---- oracle ----
+	if ps := e.Panics(); len(ps) > 0 && os.Getenv("VERIF_C14_PANICS") != "" {
+		e.Fail("C14/panic", "a panic was recovered inside a node: %s", ps[0])
+		return
+	}
 	mu.Lock()
 	ns := append([]c14Note(nil), notes...)
 	f := fl
@@ -407,6 +446,9 @@ func (c14) Run(e *simkit.Env, cc any) {
 		}
 		for _, r := range reasons {
 			ok := r == wantReason || (wantReason == "noconnection" && r == reasonKey(gen.ErrNoConnection))
+			if c.Fault == "termcrash" && rl.What != "node" && r == "normal" {
+				ok = true // the terminate message won the race against the loss of the connection
+			}
 			if !ok {
 				e.Fail("C14/wrong-reason", "fault %s: the %s on the remote %s was notified with reason %q, expected %q", c.Fault, rl.Kind, rl.What, r, wantReason)
 				return
@@ -457,6 +499,83 @@ func (c14) Run(e *simkit.Env, cc any) {
 		}
 	}
 
+	// ---- phase 2: the connection comes back, somebody else relates to the same name / event ----
+	phase2 := func(bn gen.Node, target gen.PID) bool {
+		var o2notes []c14Note
+		o2errs := map[string]error{}
+		o2ready := make(chan struct{})
+		o2 := &Hooks{Name: "observer2", Env: e, Trap: true}
+		o2.Message = func(p *Probe, from gen.PID, m any) error {
+			if m == "relate" {
+				_, o2errs["link/event"] = p.LinkEvent(gen.Event{Name: "tev", Node: "b@h2"})
+				o2errs["monitor/name"] = p.MonitorProcessID(gen.ProcessID{Name: "target", Node: "b@h2"})
+				o2errs["link/name"] = p.LinkProcessID(gen.ProcessID{Name: "target", Node: "b@h2"})
+				close(o2ready)
+				return nil
+			}
+			if nt, ok := classify(m); ok {
+				mu.Lock()
+				o2notes = append(o2notes, nt)
+				mu.Unlock()
+				e.Logf("observer2 notified link=%v %s reason=%s", nt.link, nt.what, nt.reason)
+			}
+			return nil
+		}
+		o2pid, err := spawnUnder(e, a, o2)
+		if err != nil {
+			e.Infra("spawn observer2: " + err.Error())
+			return false
+		}
+		mu.Lock()
+		before := len(notes)
+		mu.Unlock()
+		a.Send(o2pid, "relate")
+		if !e.WaitChan(o2ready, time.Minute) {
+			e.Fail("C14/request-hangs", "after the connection came back, relating to the remote name / event did not return within a simulated minute")
+			return false
+		}
+		for k, err := range o2errs {
+			if err != nil {
+				e.Fail("C14/unexpected-failure", "after the connection came back, %s on the live remote target failed: %v", k, err)
+				return false
+			}
+		}
+		e.Settle(time.Second)
+		bn.Send(target, "exit")
+		e.Settle(3 * time.Second)
+		mu.Lock()
+		defer mu.Unlock()
+		if len(notes) != before {
+			x := notes[len(notes)-1]
+			e.Fail("C14/notified-too-often", "fault %s: the first observer was already told 'no connection' for its relations; after the connection came back, a second process related to the same name/event and the target terminated, and the first observer got another notification (link=%v %s reason=%s)", c.Fault, x.link, x.what, x.reason)
+			return false
+		}
+		cnt := map[string]int{}
+		for _, x := range o2notes {
+			k := "monitor/" + x.what
+			if x.link {
+				k = "link/" + x.what
+			}
+			cnt[k]++
+		}
+		for _, k := range []string{"link/event", "monitor/name", "link/name"} {
+			if cnt[k] != 1 {
+				e.Fail("C14/not-notified", "fault %s, after the connection came back: the second observer holds %s on the remote target, which terminated, and got %d notifications", c.Fault, k, cnt[k])
+				return false
+			}
+		}
+		e.Probe("relations-after-reconnect")
+		return true
+	}
+	if c.Fault == "partition" && c.Phase2 && !c.PreTerm {
+		if _, err := a.Network().GetNode("b@h2"); err != nil {
+			e.Fail("C14/unexpected-failure", "after the partition healed node A cannot connect to b@h2: %v", err)
+			return
+		}
+		phase2(b, tPID)
+		return
+	}
+
 	// ---- restart: incarnations ----
 	if c.Fault != "restart" {
 		return
@@ -473,6 +592,14 @@ func (c14) Run(e *simkit.Env, cc any) {
 		mu.Lock()
 		newGot = append(newGot, fmt.Sprint(m))
 		mu.Unlock()
+		switch m {
+		case "setup2":
+			if _, err := p.RegisterEvent("tev", gen.EventOptions{}); err != nil {
+				e.Fail("C14/unexpected-failure", "RegisterEvent on the restarted node: %v", err)
+			}
+		case "exit":
+			return gen.TerminateReasonNormal
+		}
 		return nil
 	}
 	nh.Call = func(p *Probe, from gen.PID, ref gen.Ref, req any) (any, error) {
@@ -491,10 +618,12 @@ func (c14) Run(e *simkit.Env, cc any) {
 		}
 		newPIDs = append(newPIDs, np)
 	}
-	if _, err := b2.SpawnRegister("target", ProbeFactory(nh), gen.ProcessOptions{}); err != nil {
+	newTarget, err := b2.SpawnRegister("target", ProbeFactory(nh), gen.ProcessOptions{})
+	if err != nil {
 		e.Infra("spawn on restarted node: " + err.Error())
 		return
 	}
+	b2.Send(newTarget, "setup2")
 	sameCreation := newPIDs[0].Creation == tPID.Creation
 	res := map[string]error{}
 	ph := &Hooks{Name: "prober", Env: e, Trap: true}
@@ -534,4 +663,9 @@ func (c14) Run(e *simkit.Env, cc any) {
 		}
 	}
 	e.Probe("incarnation-refused")
+	if c.Phase2 {
+		mu.Unlock()
+		phase2(b2, newTarget)
+		mu.Lock()
+	}
 }
